@@ -40,6 +40,18 @@ ename(int rv)
 	}
 }
 
+// "No progress while the library is idle and every receiver keeps coming up
+// empty": how long that has to last before undelivered messages are called
+// lost.  Nothing can move any more in that state, so the wait is only a
+// safety margin; once one loss has been reported in this process the
+// following waits are cut short (the verdict no longer depends on them).
+static bool loss_seen;
+static uint64_t
+stuck_ns(void)
+{
+	return loss_seen ? 1000000000ull : 10ull * 1000000000ull;
+}
+
 // ------------------------------------------------------------------ white box
 // Evidence only (never a verdict): the hand-off state of a PUSH socket,
 // sampled under its own lock.  The struct mirrors push0_sock in push.c; the
@@ -690,7 +702,7 @@ receivers_idle(int timeout_ms)
 }
 
 // Drain to quiescence.  Loss-free phase: wait until everything accepted in
-// this phase has been received; give up only after 20 s without any progress
+// this phase has been received; give up only after 10 s without any progress
 // while the library is idle and the receivers keep coming up empty (then it
 // is lost, or stuck for good).  Lossy phase: wait until the library is idle,
 // every receiver has come up empty twice and the count no longer moves.
@@ -710,8 +722,9 @@ drain(int ph)
 		if (!C.lossy[ph] && got >= want) break;
 		if (receivers_idle(200) && atomic_load(&C.ph_recv[ph]) == got) {
 			if (C.lossy[ph]) break;
-			if (vf_now_ns() - last_change > 20ull * 1000000000ull) {
-				ok = false;
+			if (vf_now_ns() - last_change > stuck_ns()) {
+				ok         = false;
+				loss_seen = true;
 				break;
 			}
 		} else if (vf_now_ns() - last_change > 90ull * 1000000000ull) {
@@ -1004,7 +1017,7 @@ run_flow_case(long idx)
 			// gave up so that a late arrival is still a finding
 			char key[160];
 			snprintf(key, sizeof(key), "C06/lost/undelivered-at-quiescence/%s.%s", vf_tran_names[C.tran], ph_names[kind]);
-			vf_violation(key, "%s: phase %d (%s): %ld messages accepted, %ld received, no progress for 20 s with idle library and waiting receivers, every connection up", topo, ph, ph_names[kind], atomic_load(&C.ph_sent[ph]), atomic_load(&C.ph_recv[ph]));
+			vf_violation(key, "%s: phase %d (%s): %ld messages accepted, %ld received, no progress for 10 s with idle library and waiting receivers, every connection up", topo, ph, ph_names[kind], atomic_load(&C.ph_sent[ph]), atomic_load(&C.ph_recv[ph]));
 		}
 		vf_stat(C.lossy[ph] ? "departure_phases" : "lossfree_phases", 1);
 		vf_class("phase/%s/%s/p%dq%d/%s", vf_tran_names[C.tran], ph_names[kind], C.npush, live_pullers(), C.lossy[ph] ? (atomic_load(&C.ph_recv[ph]) < atomic_load(&C.ph_sent[ph]) ? "some-lost" : "all-arrived") : "conserved");
@@ -1224,7 +1237,11 @@ bp_receive_all(bpctx *b, nng_socket *pulls, int npulls, int expect)
 			continue;
 		}
 		if (vf_quiesce(2, 200)) empties++;
-		if (empties >= 2 && (got >= expect || vf_now_ns() - last_progress > 20ull * 1000000000ull)) break;
+		if (empties >= 2 && got >= expect) break;
+		if (empties >= 2 && vf_now_ns() - last_progress > stuck_ns()) {
+			loss_seen = true;
+			break;
+		}
 		if (empties >= 2) vf_usleep(500);
 	}
 }
